@@ -21,6 +21,7 @@ STARTS = [("E12", False, 2, 3, 3), ("Type", False, 3, 4, 4), ("QueryStatement", 
           ("DML", True, 1, 2, 2), ("Call", False, 1, 2, 2), ("DDL", True, 2, 3, 2),
           ("FE_Arg", False, 1, 2, 2), ("FE_Mod", False, 1, 2, 1), ("FD_Col", False, 1, 2, 1), ("FD_Seq", False, 1, 2, 2), ("FD_Ident", False, 1, 2, 2), ("FD_PG", False, 1, 2, 2),
           ("FD_PGProps", False, 1, 2, 2), ("FD_CS", False, 1, 2, 2), ("FM_Return", False, 1, 2, 2)]
+# (start, free, dense depth, budget quick, budget thorough)
 DENSE = [("QueryStatement", False, 2, 1, 2), ("DML", True, 1, 1, 2), ("DDL", True, 1, 1, 2), ("E12", False, 1, 1, 2)]
 HEAVY = {"C04", "C05", "C06", "C16", "C17", "C19"}
 PROFILES = {"quick": 4, "thorough": 7}
@@ -38,8 +39,11 @@ def generate(chk, name, budget, start, free, wd, **kw):
     out = os.path.join(wd, "tapes-%s.ndjson" % name)
     if os.path.exists(out):
         os.remove(out)
-    r = tlc_must_pass("Grammar", cfg_text(budget, start, free, out, **kw), os.path.join(wd, "gen-" + name), workers=WORKERS, heap="6g",
-                      timeout=6000, name="Grammar_" + name)
+    # ONE worker: a tape is longer than the 8 KB that one append writes atomically, and concurrent workers would interleave
+    # their lines in OutFile (seen once in a thorough run: two tapes on one line, exit 2). Parallelism comes from running
+    # the start symbols side by side.
+    r = tlc_must_pass("Grammar", cfg_text(budget, start, free, out, **kw), os.path.join(wd, "gen-" + name), workers=1, heap="3g",
+                      timeout=9000, name="Grammar_" + name, many=True)
     chk.add_states(r)
     n = sum(1 for _ in open(out)) if os.path.exists(out) else 0
     chk.notes.setdefault("generated", {})[name] = {"budget": budget, "states": r.distinct, "sentences": n}
@@ -68,7 +72,7 @@ def corpora(chk, prop, tier, wd):
         for (start, free, depth, bq, bt) in DENSE:
             b = bq if tier == "quick" else bt
             jobs.append(lambda start=start, free=free, b=b, depth=depth: generate(chk, "dense-" + start, b, start, free, wd, dense=depth))
-    outs = common.parallel(jobs, 4)
+    outs = common.parallel(jobs, 12)
     if tier == "thorough" and prop != "C07":
         # random deep derivations beyond the exhaustive budget (TLC -simulate on the same specification)
         for (start, free) in (("E12", False), ("QueryStatement", False), ("DDL", True), ("DML", True)):
@@ -83,11 +87,22 @@ def simulate(chk, start, free, wd, num=4000, budget=7, **kw):
     out = os.path.join(wd, "tapes-%s.ndjson" % name)
     if os.path.exists(out):
         os.remove(out)
-    r = common.tlc("Grammar", cfg_text(budget, start, free, out, **kw), os.path.join(wd, "gen-" + name), workers=8, heap="6g", timeout=3000,
-                   simulate="num=%d" % (num // 8), extra=["-depth", "400", "-seed", str(common.seed())], name="Grammar_" + name)
+    # four single-worker simulations side by side, each with its own output file (see generate)
+    def part(i):
+        po = "%s.%d" % (out, i)
+        if os.path.exists(po):
+            os.remove(po)
+        common.tlc("Grammar", cfg_text(budget, start, free, po, **kw), os.path.join(wd, "gen-%s-%d" % (name, i)), workers=1, heap="3g", timeout=3000, many=True,
+                   simulate="num=%d" % (num // 4), extra=["-depth", "400", "-seed", str(common.seed() + i)], name="Grammar_%s_%d" % (name, i))
+        return po
+    with open(out, "w") as fh:
+        for po in common.parallel([lambda i=i: part(i) for i in range(4)], 4):
+            if os.path.exists(po):
+                fh.write(open(po).read())
+                os.remove(po)
     n = sum(1 for _ in open(out)) if os.path.exists(out) else 0
     if n == 0:
-        raise Infra("simulation produced no derivation: %s" % r.output[-1500:])
+        raise Infra("simulation produced no derivation")
     chk.notes.setdefault("generated", {})[name] = {"budget": budget, "mode": "simulate", "sentences": n}
     return out, n
 
